@@ -510,4 +510,39 @@ def rule_i(ctx: Ctx) -> None:
                 'that operand.')
 
 
-RULES = [rule_a, rule_b, rule_c, rule_d, rule_e, rule_f, rule_g, rule_h, rule_i]
+def rule_j(ctx: Ctx) -> None:
+    """Attribute groups combine by *intersection*: when a second referenced group brings a wildcard, the accumulated wildcard is intersected with it on every
+    path.  The only sound reason to skip the work is that the accumulated set is already included in the new one (`accumulated.is_restriction(new)`); the
+    opposite inclusion keeps the wider set."""
+    rule = 'C16.j'
+    f = ctx.idx.cls('xmlschema.validators.attributes.XsdAttributeGroup').methods['_parse']
+    ctx.analysed(f.qualname)
+    n = 0
+    for owner in ast.walk(f.node):
+        for fld in ('body', 'orelse'):
+            blk = getattr(owner, fld, None)
+            if not isinstance(blk, list):
+                continue
+            idxs = [i for i, st in enumerate(blk) if isinstance(st, ast.Expr) and any(isinstance(c.func, ast.Attribute) and c.func.attr == 'intersection' and c.args
+                                                                                     and text(c.args[0]) == 'base_attr' for c in calls(st))]
+            if not idxs:
+                continue
+            n += 1
+            i = idxs[0]
+            new = 'base_attr'
+            skips = []
+            for st in blk[:i]:
+                for x in ast.walk(st):
+                    if isinstance(x, ast.If) and any(isinstance(y, (ast.Continue, ast.Break, ast.Return)) for b in x.body for y in ast.walk(b)):
+                        skips.append(x)
+            bad = [x for x in skips if not (text(x.test).endswith(f'.is_restriction({new})') and not text(x.test).startswith(new))]
+            ok = not bad
+            ctx.ob(rule, 'XsdAttributeGroup._parse: the wildcard of a further attribute group is intersected with the accumulated one on every path', f.loc(bad[0]) if bad else f.loc(blk[i]), ok,
+                   '' if ok else f'`if {text(bad[0].test)[:60]}: continue` skips the intersection: when the new wildcard is the narrower one the wider accumulated set is kept - '
+                   'g1(##any) + g2(##targetNamespace) admits attributes that g2 forbids', key='_parse|group-wildcards-intersected')
+    ctx.floor(rule, 'intersections with the wildcard of a referenced attribute group', n, 1)
+    ctx.explain('C16.j: in the block of XsdAttributeGroup._parse that calls `<acc>.intersection(base_attr)` no earlier statement leaves the iteration, except under '
+                '`<acc>.is_restriction(base_attr)`.')
+
+
+RULES = [rule_a, rule_b, rule_c, rule_d, rule_e, rule_f, rule_g, rule_h, rule_i, rule_j]
